@@ -16,20 +16,29 @@ import Rooc.Pre.Expand
 namespace Rooc.Pre
 open Rooc
 
-/-- compile-time values: scalars and arrays (`IterableKind`) tagged with their element kind -/
+/-- compile-time values: scalars, arrays (`IterableKind`) tagged with their element kind, and tuples (the
+elements of `enumerate(…)`) -/
 inductive TVal (α : Type) where
   | scalar (p : Prim α)
   | arr (elem : Kind) (vs : List (TVal α))
+  | tuple (vs : List (TVal α))
   deriving Repr, Inhabited
 
+mutual
 def TVal.kind {α : Type} : TVal α → Kind
   | .scalar p => p.kind
   | .arr e _ => .iter e
+  | .tuple vs => .tuple (TVal.kinds vs)
+def TVal.kinds {α : Type} : List (TVal α) → List Kind
+  | [] => []
+  | v :: vs => v.kind :: TVal.kinds vs
+end
 
 /-- the primitive the operator code sees -/
 def TVal.prim {α : Type} : TVal α → Prim α
   | .scalar p => p
   | .arr e _ => .other (.iter e)
+  | .tuple vs => .other (.tuple (TVal.kinds vs))
 
 /-- `flatten_primitive_array_values`: one kind for all elements, else `Anys`; `[]` is `Anys([])` -/
 def mkArr {α : Type} (vs : List (TVal α)) : TVal α :=
@@ -73,27 +82,32 @@ def scalarAgrees (pk k : Kind) : Bool :=
   | _, _ => false
 
 mutual
-/-- the value inhabits the static kind: scalars up to the numeric class, arrays element by element
-(nothing inhabits `Any`, so the only value of kind `Iterable(Any)` is the empty array) -/
+/-- the value inhabits the static kind: scalars up to the numeric class, arrays element by element, tuples
+component by component (nothing inhabits `Any`, so the only value of kind `Iterable(Any)` is the empty array) -/
 def TVal.agrees : TVal α → Kind → Bool
   | .scalar p, k => p.isScalar && scalarAgrees p.kind k
   | .arr _ vs, k => match k with | .iter e => agreesList vs e | _ => false
+  | .tuple vs, k => match k with | .tuple ks => agreesTuple vs ks | _ => false
 def agreesList : List (TVal α) → Kind → Bool
   | [], _ => true
   | v :: vs, k => v.agrees k && agreesList vs k
+def agreesTuple : List (TVal α) → List Kind → Bool
+  | [], [] => true
+  | v :: vs, k :: ks => v.agrees k && agreesTuple vs ks
+  | _, _ => false
 end
 
 mutual
 /-- the fragment: every literal is well kinded (no mixed array literal `[1, "a"]` — those are the `Any`
 escape of known finding C19-any-escape), an array access has at least one index (grammar), and the only
-functions called are the ones `TE.eval` implements (`len`, `range`) -/
+functions called are the ones `TE.eval` implements (`len`, `range`, `enumerate` / `enum`) -/
 def TE.wf : TE α → Bool
   | .lit v => v.agrees v.kind
   | .var _ => true
   | .un _ e => e.wf
   | .bin _ a b => a.wf && b.wf
   | .access _ idx => !idx.isEmpty && wfList idx
-  | .call f args => (f == "len" || f == "range") && wfList args
+  | .call f args => (f == "len" || f == "range" || f == "enumerate" || f == "enum") && wfList args
 def wfList : List (TE α) → Bool
   | [] => true
   | e :: es => e.wf && wfList es
@@ -201,6 +215,7 @@ variable {α : Type} [Arith α] [ToU64 α]
 def readV : TVal α → List Nat → Except TErr (TVal α)
   | v, [] => .ok v     -- (the grammar has at least one index; `read([])` is `Undefined` in the Rust)
   | .scalar _, _ :: _ => .error .outOfBounds
+  | .tuple _, _ :: _ => .error .outOfBounds
   | .arr _ vs, [i] => match vs[i]? with | some x => .ok x | none => .error .outOfBounds
   | .arr _ vs, i :: j :: rest =>
     match vs[i]? with
@@ -214,19 +229,24 @@ def usizeOf (v : TVal α) : Except TErr Nat :=
     match asUsizeCast p with
     | .ok n => .ok n
     | .error _ => if p.kind.isNumeric then .error .other else .error .wrongArgument   -- numeric: a value (fraction / sign) problem
-  | .arr _ _ => .error .wrongArgument
+  | _ => .error .wrongArgument
 def intOf (v : TVal α) : Except TErr Int :=
   match v with
   | .scalar p =>
     match asIntegerCast p with
     | .ok n => .ok n
     | .error _ => if p.kind.isNumeric then .error .other else .error .wrongArgument
-  | .arr _ _ => .error .wrongArgument
+  | _ => .error .wrongArgument
+
+/-- `EnumerateArray::call`: `(element, index)`, the index a `Number` at run time -/
+def enumerateT : List (TVal α) → Nat → List (TVal α)
+  | [], _ => []
+  | v :: vs, i => .tuple [v, .scalar (.number (Arith.ofInt i))] :: enumerateT vs (i + 1)
 
 def liftOp (r : Except OpErr (Prim α)) (wrap : OpErr → TErr) : Except TErr (TVal α) :=
   match r with
   | .ok p => .ok (.scalar p)
-  | .error c => .error (wrap c)
+  | .error c => .error (opFailure wrap c)
 
 mutual
 /-- `as_primitive` -/
@@ -246,15 +266,20 @@ def TE.eval (r : VEnv α) : TE α → Except TErr (TVal α)
     | some a => do
       let is ← evalIdx r idx
       match a with
-      | .scalar _ => .error .wrongArgument      -- `as_iterator`
       | .arr e vs => readV (.arr e vs) is
+      | _ => .error .wrongArgument      -- `as_iterator`
   | .call f args =>
     match f, args with
     | "len", [a] => do
       match (← a.eval r) with
       | .arr _ vs => .ok (.scalar (.pint vs.length))
-      | .scalar _ => .error .wrongArgument
+      | _ => .error .wrongArgument
     | "len", _ => .error .wrongNumberOfArguments
+    | "enumerate", [a] | "enum", [a] => do
+      match (← a.eval r) with
+      | .arr e vs => .ok (.arr (.tuple [e, .pint]) (enumerateT vs 0))
+      | _ => .error .wrongArgument
+    | "enumerate", _ | "enum", _ => .error .wrongNumberOfArguments
     | "range", [a, b, c] => do
       let lo ← intOf (← a.eval r)
       let hi ← intOf (← b.eval r)
